@@ -73,18 +73,21 @@ pub fn run(rep: &Report) -> i32 {
     rep.set("alphabets", json!({"universe_A": gen::universe_a().iter().map(|t| t.render()).collect::<Vec<_>>(), "universe_B": gen::universe_b().iter().map(|t| t.render()).collect::<Vec<_>>(), "universe_C": gen::universe_c().iter().map(|t| t.render()).collect::<Vec<_>>()}));
     let forms: Mutex<BTreeSet<&'static str>> = Mutex::new(BTreeSet::new());
     let seen: Mutex<std::collections::HashSet<u64>> = Mutex::new(Default::default());
-    par_for(&jobs, rep, 16, |_, job| {
-        let fam = &fams[job.fam].1;
-        drive::DUMMY.with(|env| check_term(rep, &job.expr, &job.ty, &fam.universe, &fns[job.fam], env, &forms, &seen));
-    });
     // deep environments: n live bindings, every one of them read back (flat blocks, nested blocks, tuple patterns)
     let deep = deep_env_terms(rep.is_quick());
     rep.set("deep_environment_programs", json!(deep.len()));
     rep.transition(deep.len() as u64);
-    let no_fns = BTreeMap::new();
+    let (wide, wide_fns) = wide_call_terms(rep.is_quick());
+    rep.set("wide_call_programs", json!(wide.len()));
+    rep.transition(wide.len() as u64);
     let uni = gen::universe_a();
-    par_for(&deep, rep, 4, |_, (e, ty)| {
-        drive::DUMMY.with(|env| check_term(rep, e, ty, &uni, &no_fns, env, &forms, &seen));
+    let all: Vec<(Expr, Ty)> = deep.into_iter().chain(wide).collect();
+    par_for(&all, rep, 4, |_, (e, ty)| {
+        drive::DUMMY.with(|env| check_term(rep, e, ty, &uni, &wide_fns, env, &forms, &seen));
+    });
+    par_for(&jobs, rep, 16, |_, job| {
+        let fam = &fams[job.fam].1;
+        drive::DUMMY.with(|env| check_term(rep, &job.expr, &job.ty, &fam.universe, &fns[job.fam], env, &forms, &seen));
     });
     let forms = forms.into_inner().unwrap();
     rep.set("forms_covered", json!(forms.iter().collect::<Vec<_>>()));
@@ -150,6 +153,31 @@ pub fn deep_env_terms(quick: bool) -> Vec<(Expr, Ty)> {
         }
     }
     out
+}
+
+/// Calls of functions with `n` parameters (every third one `u16`, the others `u8`) that return their k-th parameter,
+/// for every k; arguments 0 and n/2 come from the free family variables, the others are distinct literals.
+pub fn wide_call_terms(quick: bool) -> (Vec<(Expr, Ty)>, BTreeMap<String, FnDef>) {
+    let arities: &[usize] = if quick { &[1, 2, 3, 4, 5, 8, 9, 33] } else { &[1, 2, 3, 4, 5, 6, 7, 8, 9, 15, 16, 17, 31, 32, 33, 64, 65] };
+    let pty = |i: usize| if i % 3 == 1 { Ty::U(16) } else { Ty::U(8) };
+    let mut fns = BTreeMap::new();
+    let mut out = vec![];
+    for &n in arities {
+        let args: Vec<Expr> = (0..n)
+            .map(|i| match (i, pty(i)) {
+                (0, _) => var(&gen::var_name(&Ty::U(8), 0)),
+                (i, Ty::U(8)) if i == (n / 2) / 3 * 3 && i > 0 => var(&gen::var_name(&Ty::U(8), 1)),
+                (i, Ty::U(16)) => dec((1000 + i * 13) as u128),
+                (i, _) => dec(((i * 7 + 3) % 256) as u128),
+            })
+            .collect();
+        for k in 0..n {
+            let name = format!("pick_{n}_{k}");
+            fns.insert(name.clone(), FnDef { name: name.clone(), params: (0..n).map(|i| (format!("p{i}"), pty(i))).collect(), ret: Some(pty(k)), body: (vec![], Some(Box::new(var(&format!("p{k}"))))) });
+            out.push((fcall(&name, args.clone()), pty(k)));
+        }
+    }
+    (out, fns)
 }
 
 fn run_json(text: &str, witness: &[(String, Val, Ty)], debug: bool, expect: &str, observed: &str) -> serde_json::Value {
